@@ -4,6 +4,7 @@ package plugin_test
 
 import (
 	"fmt"
+	"math/big"
 	"net/netip"
 	"strings"
 
@@ -56,9 +57,23 @@ func wFlags(ip system.IP) string {
 // wIPCoq renders a system.IP as a Model.Types.sysip.
 func wIPCoq(ip system.IP) string {
 	a := ip.Address.Addr()
-	return verifh.App("mkIP", verifh.B(a.Is4()), verifh.AddrN(a), verifh.N(uint64(ip.Address.Bits())),
+	return verifh.App("mkIP", verifh.B(a.Is4()), wAddrN(a), verifh.N(uint64(ip.Address.Bits())),
 		verifh.B(ip.Deprecated), verifh.B(ip.ManageTemporaryAddresses), verifh.B(ip.StablePrivacy),
 		verifh.B(ip.Temporary), verifh.B(ip.Tentative), verifh.B(ip.ValidForever))
+}
+
+// wAddrN renders an address as a hexadecimal N literal (Coq parses these much faster than
+// 39-digit decimal ones); IPv4 addresses as their 32-bit value.
+func wAddrN(a netip.Addr) string {
+	if !a.IsValid() {
+		return "0%N"
+	}
+	if a.Is4() {
+		b := a.As4()
+		return "0x" + new(big.Int).SetBytes(b[:]).Text(16) + "%N"
+	}
+	b := a.As16()
+	return "0x" + new(big.Int).SetBytes(b[:]).Text(16) + "%N"
 }
 
 func wIPsCoq(ips []system.IP) string {
@@ -83,7 +98,7 @@ func wIPsJSON(ips []system.IP) []string {
 
 func wRouteCoq(r system.Route) string {
 	a := r.Prefix.Addr()
-	return verifh.App("mkRoute", verifh.B(a.Is4()), verifh.AddrN(a), verifh.N(uint64(r.Prefix.Bits())))
+	return verifh.App("mkRoute", verifh.B(a.Is4()), wAddrN(a), verifh.N(uint64(r.Prefix.Bits())))
 }
 
 func wPref(p ndp.Preference) string {
@@ -106,18 +121,18 @@ func wOptsCoq(opts []ndp.Option) (string, []string) {
 		case *ndp.PrefixInformation:
 			items = append(items, verifh.App("OPrefix", verifh.N(uint64(o.PrefixLength)), verifh.B(o.OnLink),
 				verifh.B(o.AutonomousAddressConfiguration), verifh.Z(int64(o.ValidLifetime)),
-				verifh.Z(int64(o.PreferredLifetime)), verifh.AddrN(o.Prefix)))
+				verifh.Z(int64(o.PreferredLifetime)), wAddrN(o.Prefix)))
 			js = append(js, fmt.Sprintf("prefix %s/%d onlink=%v auto=%v valid=%d pref=%d", o.Prefix, o.PrefixLength,
 				o.OnLink, o.AutonomousAddressConfiguration, int64(o.ValidLifetime), int64(o.PreferredLifetime)))
 		case *ndp.RouteInformation:
 			items = append(items, verifh.App("ORoute", verifh.N(uint64(o.PrefixLength)), wPref(o.Preference),
-				verifh.Z(int64(o.RouteLifetime)), verifh.AddrN(o.Prefix)))
+				verifh.Z(int64(o.RouteLifetime)), wAddrN(o.Prefix)))
 			js = append(js, fmt.Sprintf("route %s/%d pref=%s lifetime=%d", o.Prefix, o.PrefixLength, wPref(o.Preference), int64(o.RouteLifetime)))
 		case *ndp.RecursiveDNSServer:
 			ss := make([]string, 0, len(o.Servers))
 			sj := make([]string, 0, len(o.Servers))
 			for _, s := range o.Servers {
-				ss = append(ss, verifh.AddrN(s))
+				ss = append(ss, wAddrN(s))
 				sj = append(sj, s.String())
 			}
 			items = append(items, verifh.App("ORDNSS", verifh.Z(int64(o.Lifetime)), verifh.List(ss)))
